@@ -1,9 +1,16 @@
 #!/bin/bash
-# run once after a fresh restore, offline: builds the harness packages (warms the build cache)
+# run once after a fresh restore, offline: builds the harness and warms the Go build cache
+# (plain and race-instrumented) so that the checks' own rebuilds are incremental
 set -u
 cd "$(dirname "$0")"
 . ./env.sh
 mkdir -p bin evidence replays
 cp /repo/go.sum harness/go.sum
-cd harness && go build -tags verif ./... 2>&1 | tail -20
+( cd harness && go build -tags verif ./... 2>&1 | tail -20 )
+for d in harness/c*/; do
+  p=$(basename "$d")
+  if [ -f "$d/RACE" ]; then ( cd harness && go build -race -tags verif -o /dev/null "./$p" 2>&1 | tail -5 ); fi
+done
+( cd /repo && go build -tags verif -o /dev/null ./app/ts-server ./app/ts-meta ./app/ts-store ./app/ts-sql 2>&1 | tail -5 )
+( cd /repo && go build -race -tags verif -o /dev/null ./app/ts-server 2>&1 | tail -5 )
 exit 0
